@@ -96,6 +96,17 @@ class Angle(EdgeData):
     def scale(self, ratio, origin=None):
         """Axis is not to be scaled"""
 
+    def rotate(self, angle, axis, origin=None):
+        """Axis is a direction: it turns but is not displaced by a shifted origin"""
+        self.axis.rotate(angle, axis, [0, 0, 0])
+        return self
+
+    def mirror(self, normal, origin=None):
+        """Axis is a direction; a mirror image turns the other way round"""
+        self.axis.mirror(normal, [0, 0, 0])
+        self.angle = -self.angle
+        return self
+
     @property
     def parts(self):
         return [self.axis]
